@@ -141,7 +141,7 @@ Proof.
     set (e := drun m delta fuel (start + 1)) in *.
     assert (Elast : ((e + u32 - 1) mod u32) mod u16 = e - 1) by (unfold u32, u16; lia).
     assert (Ediff : (e + u32 - start) mod u32 = e - start) by (unfold u32; lia).
-    rewrite Elast, Ediff in Hin.
+    rewrite Elast, Ediff in Hin. clear Elast Ediff.
     assert (Hs1 : edge_ok m v (mkSeg start (e - 1) delta false)).
     { apply edge_ok_intro.
       - lia.
@@ -212,7 +212,7 @@ Proof. intros Hv. apply (path_exists_aux (N.to_nat (65536 - v))); lia. Qed.
 (* the boolean checker used on the implementation's output *)
 Lemma seg_eqb_eq a b : seg_eqb a b = true -> a = b.
 Proof.
-  unfold seg_eqb. destruct a, b. cbn [s_first s_last s_delta s_vals].
+  unfold seg_eqb. destruct a as [f1 l1 d1 b1], b as [f2 l2 d2 b2]. cbn [s_first s_last s_delta s_vals].
   rewrite !andb_true_iff. intros [[[H1 H2] H3] H4].
   apply N.eqb_eq in H1, H2, H3. apply Bool.eqb_prop in H4. now subst.
 Qed.
@@ -239,7 +239,7 @@ Proof.
   cbn [wf_segs].
   destruct (N.le_gt_cases v 65535) as [Hle|Hgt].
   - destruct (edges_forward v s Hle Hin) as [F1 F2].
-    repeat split; [assumption|now apply edges_sound|]. apply IH. exact F2.
+    split; [assumption|]. split; [now apply edges_sound|]. apply IH. exact F2.
   - rewrite edges_beyond in Hin by assumption. destruct Hin.
 Qed.
 
